@@ -32,10 +32,18 @@ const (
 
 var sideName = []datamoverprotocol.DataMovePort{"inside", "outside"}
 
+// c23Mem describes the memory behind one side of the mover. With Ctls == 1 it
+// is one ideal controller behind a mem.SinglePortMapper. With Ctls >= 2 it is
+// Ctls memory modules behind a mem.InterleavedAddressPortMapper: every module
+// is an ideal controller with its own storage that spans the side's whole
+// (flat) address range, as the banks of the pagemigration acceptance test do;
+// module k owns the addresses a with a/Interleave%Ctls == k. The flat content
+// of the side is, for every address, the byte its owning module holds there;
+// the bytes a module holds at addresses it does not own are never to be touched.
 type c23Mem struct {
-	CapKiB     int   `json:"cap_kib"`    // storage capacity, 8..32 KiB
-	Ctls       int   `json:"ctls"`       // 1 or 2 ideal controllers sharing the storage
-	Interleave int   `json:"interleave"` // bytes per controller stripe when Ctls == 2
+	CapKiB     int   `json:"cap_kib"`    // size of the side's address range, 8..32 KiB
+	Ctls       int   `json:"ctls"`       // memory modules: 1 (single-port mapper) or 2..4 (interleaved mapper)
+	Interleave int   `json:"interleave"` // interleaving size in bytes when Ctls >= 2: a multiple of the granularity of every side the memory serves
 	Latency    []int `json:"latency"`
 	Width      []int `json:"width"`
 	Freq       []int `json:"freq"`
@@ -92,6 +100,29 @@ func (c *c23Case) memOf(side int) int {
 
 func (c *c23Case) capOf(side int) uint64 { return uint64(c.Mems[c.memOf(side)].CapKiB) * 1024 }
 
+// owner returns the module of memory mi that owns address a.
+func (c *c23Case) owner(mi int, a uint64) int {
+	md := c.Mems[mi]
+	if md.Ctls < 2 {
+		return 0
+	}
+	return int(a / uint64(md.Interleave) % uint64(md.Ctls))
+}
+
+// crossings returns how many interleaving boundaries of memory mi lie strictly
+// inside [a, a+n), and whether the memory is interleaved at all.
+func (c *c23Case) crossings(mi int, a, n uint64) (int, bool) {
+	md := c.Mems[mi]
+	if md.Ctls < 2 {
+		return 0, false
+	}
+	if n == 0 {
+		return 0, true
+	}
+	il := uint64(md.Interleave)
+	return int((a+n-1)/il - a/il), true
+}
+
 func roundUp(x, g uint64) uint64 { return (x + g - 1) / g * g }
 
 func gcd(a, b uint64) uint64 {
@@ -133,12 +164,20 @@ func genGran(rt *rapid.T, label string) uint64 {
 	return rapid.SampledFrom(pow2Grans).Draw(rt, label)
 }
 
-func genC23Mem(rt *rapid.T) c23Mem {
+// genC23Mem draws one memory; unit is the least common multiple of the
+// granularities of the sides it serves. The interleaving size is unit x
+// {1,2,3,4,5,8,16} (<= 4096), so that no chunk straddles two modules and moves
+// of up to 2304 bytes cross from none to hundreds of module boundaries.
+func genC23Mem(rt *rapid.T, unit uint64) c23Mem {
 	m := c23Mem{
 		CapKiB: rapid.IntRange(8, 32).Draw(rt, "capkib"),
-		Ctls:   rapid.SampledFrom([]int{1, 1, 2}).Draw(rt, "ctls"),
+		Ctls:   rapid.SampledFrom([]int{1, 1, 1, 2, 2, 3, 4}).Draw(rt, "ctls"),
 	}
-	m.Interleave = rapid.SampledFrom([]int{64, 256, 1024, 4096}).Draw(rt, "interleave")
+	k := rapid.SampledFrom([]uint64{1, 1, 2, 2, 3, 4, 5, 8, 16}).Draw(rt, "interleave")
+	for k > 1 && unit*k > 4096 {
+		k /= 2
+	}
+	m.Interleave = int(unit * k)
 	for i := 0; i < m.Ctls; i++ {
 		m.Latency = append(m.Latency, rapid.SampledFrom([]int{0, 1, 3, 10, 25}).Draw(rt, "latency"))
 		m.Width = append(m.Width, rapid.IntRange(1, 4).Draw(rt, "width"))
@@ -167,7 +206,12 @@ func genC23(rt *rapid.T) c23Case {
 	if rapid.IntRange(0, 3).Draw(rt, "samegran") == 0 {
 		c.OutGran = c.InGran
 	}
-	c.Mems = []c23Mem{genC23Mem(rt), genC23Mem(rt)}
+	if c.OneMem {
+		l := c.InGran / gcd(c.InGran, c.OutGran) * c.OutGran
+		c.Mems = []c23Mem{genC23Mem(rt, l), genC23Mem(rt, l)}
+	} else {
+		c.Mems = []c23Mem{genC23Mem(rt, c.InGran), genC23Mem(rt, c.OutGran)}
+	}
 
 	// buffer size: {4..256} (powers of two or any integer) or a few larger
 	// ones, raised to the smallest size with which every direction can make
@@ -300,6 +344,13 @@ type c23Stats struct {
 	atEnd          bool
 	oddGran        bool
 	interleaved    bool
+	dstInterleaved bool    // a non-empty move writes to a side with >= 2 modules
+	srcInterleaved bool    // a non-empty move reads from a side with >= 2 modules
+	dstCross       [5]bool // some move's destination range crosses 0 / 1 / 2 / 3-7 / >= 8 interleaving boundaries
+	srcCross       [5]bool // same for the source range
+	dstWrap        bool    // a destination range crosses at least as many boundaries as there are modules (reaches every module, the first one twice)
+	srcWrap        bool
+	bothCross      bool // one move crosses boundaries on both of its sides
 	memReqs        int
 	maxInflight    int // memory requests of the mover in flight at once
 }
@@ -329,21 +380,28 @@ func c23Exec(c c23Case, rec *fpRec) (sig, msg string, st c23Stats) {
 	if c.OneMem {
 		nMem = 1
 	}
-	storages := make([]*mem.Storage, nMem)
-	model := make([][]byte, nMem)
+	storages := make([][]*mem.Storage, nMem) // [memory][module]
+	model := make([][][]byte, nMem)          // expected complete content of every module
 	mappers := make([]mem.AddressToPortMapper, nMem)
 	var memPorts []messaging.Port
 	var memCtls []*idealmemcontroller.Comp
 	for i := 0; i < nMem; i++ {
 		md := c.Mems[i]
 		capacity := uint64(md.CapKiB) * 1024
-		storages[i] = mem.NewStorage(capacity)
-		model[i] = fillBytes(int(capacity), c.Seed+uint64(i)*0x51ed27)
-		if err := storages[i].Write(0, model[i]); err != nil {
-			return "harness", err.Error(), st
-		}
 		var tops []messaging.RemotePort
 		for k := 0; k < md.Ctls; k++ {
+			// every module has its own storage over the side's flat address
+			// range, filled differently from its siblings: a request routed
+			// to the wrong module reads or changes bytes that are not the
+			// side's content at that address.
+			storage := mem.NewStorage(capacity)
+			content := fillBytes(int(capacity), c.Seed+uint64(i)*0x51ed27+uint64(k)*0x9e3779b97f4a7c15)
+			if err := storage.Write(0, content); err != nil {
+				return "harness", err.Error(), st
+			}
+			storages[i] = append(storages[i], storage)
+			model[i] = append(model[i], content)
+
 			spec := idealmemcontroller.DefaultSpec()
 			spec.Freq = freqOf(md.Freq[k])
 			spec.Latency = md.Latency[k]
@@ -352,7 +410,7 @@ func c23Exec(c c23Case, rec *fpRec) (sig, msg string, st c23Stats) {
 			ctl := idealmemcontroller.MakeBuilder().
 				WithRegistrar(reg).
 				WithSpec(spec).
-				WithResources(idealmemcontroller.Resources{Storage: storages[i]}).
+				WithResources(idealmemcontroller.Resources{Storage: storage}).
 				Build(fmt.Sprintf("Mem%dCtl%d", i, k))
 			memCtls = append(memCtls, ctl)
 			top := assignPort(reg, ctl, "Top", md.TopBuf[k])
@@ -367,6 +425,26 @@ func c23Exec(c c23Case, rec *fpRec) (sig, msg string, st c23Stats) {
 			mappers[i] = im
 			st.interleaved = true
 		}
+	}
+	// flatRead returns the side's content of [addr, addr+size): every byte
+	// from the module that owns its address.
+	flatRead := func(mi int, addr, size uint64) ([]byte, error) {
+		out := make([]byte, 0, size)
+		for a := addr; a < addr+size; {
+			n := addr + size - a
+			if md := c.Mems[mi]; md.Ctls >= 2 {
+				if left := uint64(md.Interleave) - a%uint64(md.Interleave); left < n {
+					n = left
+				}
+			}
+			b, err := storages[mi][c.owner(mi, a)].Read(a, n)
+			if err != nil {
+				return nil, err
+			}
+			out = append(out, b...)
+			a += n
+		}
+		return out, nil
 	}
 
 	// data mover
@@ -430,7 +508,7 @@ func c23Exec(c c23Case, rec *fpRec) (sig, msg string, st c23Stats) {
 				req.Src = drvPort.AsRemote()
 				req.Dst = dmTop.AsRemote()
 				req.TrafficClass = "datamoverprotocol.DataMoveRequest"
-				snap, err := storages[c.memOf(mv.SrcSide)].Read(mv.Src, mv.Size)
+				snap, err := flatRead(c.memOf(mv.SrcSide), mv.Src, mv.Size)
 				if err != nil {
 					setFail("harness", "snapshot: %v", err)
 				}
@@ -470,30 +548,36 @@ func c23Exec(c c23Case, rec *fpRec) (sig, msg string, st c23Stats) {
 	taken, acks, active := 0, 0, false
 	checkStorages := func(when string, cur int) {
 		for i := range storages {
-			actual, err := storages[i].Read(0, uint64(len(model[i])))
-			if err != nil {
-				setFail("harness", "storage read: %v", err)
+			for k := range storages[i] {
+				actual, err := storages[i][k].Read(0, uint64(len(model[i][k])))
+				if err != nil {
+					setFail("harness", "storage read: %v", err)
+					return
+				}
+				if bytes.Equal(actual, model[i][k]) {
+					continue
+				}
+				at := 0
+				for actual[at] == model[i][k][at] {
+					at++
+				}
+				kind := "outside-dst-changed"
+				what := fmt.Sprintf("%s: memory %d byte %#x is %#02x, expected %#02x", when, i, at, actual[at], model[i][k][at])
+				if len(storages[i]) > 1 {
+					what = fmt.Sprintf("%s: memory %d module %d of %d (interleaving %d, address owned by module %d) byte %#x is %#02x, expected %#02x",
+						when, i, k, len(storages[i]), c.Mems[i].Interleave, c.owner(i, uint64(at)), at, actual[at], model[i][k][at])
+				}
+				if cur >= 0 && cur < len(c.Moves) {
+					mv := c.Moves[cur]
+					if i == c.memOf(mv.DstSide) && k == c.owner(i, uint64(at)) && uint64(at) >= mv.Dst && uint64(at) < mv.Dst+mv.Size {
+						kind = "dst-mismatch"
+					}
+					what += fmt.Sprintf(" (move %d: %+v, source snapshot byte %d)", cur, mv, int64(at)-int64(mv.Dst))
+				}
+				setFail(kind, "%s", what)
+				copy(model[i][k], actual) // judge later acknowledgements relative to what is there now
 				return
 			}
-			if bytes.Equal(actual, model[i]) {
-				continue
-			}
-			at := 0
-			for actual[at] == model[i][at] {
-				at++
-			}
-			kind := "outside-dst-changed"
-			what := fmt.Sprintf("%s: memory %d byte %#x is %#02x, expected %#02x", when, i, at, actual[at], model[i][at])
-			if cur >= 0 && cur < len(c.Moves) {
-				mv := c.Moves[cur]
-				if i == c.memOf(mv.DstSide) && uint64(at) >= mv.Dst && uint64(at) < mv.Dst+mv.Size {
-					kind = "dst-mismatch"
-				}
-				what += fmt.Sprintf(" (move %d: %+v, source snapshot byte %d)", cur, mv, int64(at)-int64(mv.Dst))
-			}
-			setFail(kind, "%s", what)
-			copy(model[i], actual) // judge later acknowledgements relative to what is there now
-			return
 		}
 	}
 	onHook(dmTop, func(ctx hooking.HookCtx) {
@@ -526,7 +610,9 @@ func c23Exec(c c23Case, rec *fpRec) (sig, msg string, st c23Stats) {
 				return
 			}
 			mv := c.Moves[k]
-			copy(model[c.memOf(mv.DstSide)][mv.Dst:mv.Dst+mv.Size], snapshots[k])
+			for di, o := c.memOf(mv.DstSide), uint64(0); o < mv.Size; o++ {
+				model[di][c.owner(di, mv.Dst+o)][mv.Dst+o] = snapshots[k][o]
+			}
 			checkStorages(fmt.Sprintf("at acknowledgement #%d", k), k)
 		}
 	})
@@ -571,8 +657,10 @@ func c23Exec(c c23Case, rec *fpRec) (sig, msg string, st c23Stats) {
 			rec.addFinal("connection", connB.Name(), connB.State)
 		}
 		for i := range storages {
-			b, _ := storages[i].Read(0, uint64(len(model[i])))
-			rec.addFinal("storage", fmt.Sprintf("Storage%d", i), fmt.Sprintf("%x", sha256.Sum256(b)))
+			for k := range storages[i] {
+				b, _ := storages[i][k].Read(0, uint64(len(model[i][k])))
+				rec.addFinal("storage", fmt.Sprintf("Storage%d.%d", i, k), fmt.Sprintf("%x", sha256.Sum256(b)))
+			}
 		}
 		rec.finish()
 	}()
@@ -583,8 +671,10 @@ func c23Exec(c c23Case, rec *fpRec) (sig, msg string, st c23Stats) {
 			return fail.sig, fail.msg + "; then " + firstLineOf(pmsg), st
 		}
 		for i := range storages {
-			actual, _ := storages[i].Read(0, uint64(len(model[i])))
-			st.changedAtPanic = st.changedAtPanic || !bytes.Equal(actual, model[i])
+			for k := range storages[i] {
+				actual, _ := storages[i][k].Read(0, uint64(len(model[i][k])))
+				st.changedAtPanic = st.changedAtPanic || !bytes.Equal(actual, model[i][k])
+			}
 		}
 		return normSig(psig), pmsg, st
 	}
@@ -644,11 +734,39 @@ func c23Exec(c c23Case, rec *fpRec) (sig, msg string, st c23Stats) {
 		st.outToIn = st.outToIn || (mv.SrcSide == sideOut && mv.DstSide == sideIn)
 		st.atEnd = st.atEnd || (mv.Size > 0 && (mv.Dst+mv.Size == c.capOf(mv.DstSide) || mv.Src+mv.Size == c.capOf(mv.SrcSide)))
 		st.oddGran = st.oddGran || s&(s-1) != 0 || d&(d-1) != 0
+		if mv.Size > 0 {
+			dk, dil := c.crossings(c.memOf(mv.DstSide), mv.Dst, mv.Size)
+			sk, sil := c.crossings(c.memOf(mv.SrcSide), mv.Src, mv.Size)
+			if dil {
+				st.dstInterleaved = true
+				st.dstCross[crossBucket(dk)] = true
+				st.dstWrap = st.dstWrap || dk >= c.Mems[c.memOf(mv.DstSide)].Ctls
+			}
+			if sil {
+				st.srcInterleaved = true
+				st.srcCross[crossBucket(sk)] = true
+				st.srcWrap = st.srcWrap || sk >= c.Mems[c.memOf(mv.SrcSide)].Ctls
+			}
+			st.bothCross = st.bothCross || (dk > 0 && sk > 0)
+		}
 	}
 	if fail != nil {
 		return fail.sig, fail.msg, st
 	}
 	return "", "", st
+}
+
+var crossBucketName = [5]string{"0", "1", "2", "3-7", ">=8"}
+
+func crossBucket(k int) int {
+	switch {
+	case k <= 2:
+		return k
+	case k < 8:
+		return 3
+	default:
+		return 4
+	}
 }
 
 // c23InputClass names the input class of a failing case for the signature:
@@ -674,17 +792,19 @@ func c23InputClass(c c23Case) string {
 
 func TestC23(t *testing.T) {
 	s := kit.Begin(t, "C23", "datamover",
-		"real datamover.Comp between ideal memory controllers: inside/outside storages of 8-32 KiB pre-filled with generated bytes (or one storage serving both sides), "+
-			"each storage behind 1 controller or 2 interleaved controllers (stripe 64-4096, latency 0-25, width 1-4, own clocks); inside/outside granularity from {4..256 powers of two} "+
+		"real datamover.Comp between ideal memory controllers: inside/outside address ranges of 8-32 KiB (or one memory serving both sides); each side is either one controller behind "+
+			"a mem.SinglePortMapper or 2-4 memory modules behind a mem.InterleavedAddressPortMapper (interleaving size = the side's granularity (lcm of both when one memory serves both) x {1,2,3,4,5,8,16}, <= 4096), "+
+			"every module an ideal controller with its own storage over the flat address range, pre-filled with its own generated bytes (latency 0-25, width 1-4, own clocks); "+
+			"the side's reference content is, per address, the byte held by the module that owns the address; inside/outside granularity from {4..256 powers of two} "+
 			"(1 in 6: 12,20,24,48,96,100,192); BufferSize from {4..256 powers of two | any 4..256 | 512,1024,4096 | the minimum}, raised to the smallest size that lets a write "+
 			"window fill; port buffers 1-8; 1-5 moves from one scripted requester (gaps, optional wait-for-all-acks barrier, ack receive stalls): every side pair, addresses aligned "+
 			"to the side's granularity (start 0 / end of storage / anywhere), size 0, multiples of both granularities, multiples of the destination granularity only, around the buffer size "+
 			"(<= 2304 B); source never overlaps the destination of the same move or of an earlier move that can still be running; sizes not a multiple of the destination "+
-			"granularity are the listed finding and are rounded up (counted as excluded). Oracle at every acknowledgement (Top send hook): both storages, read in full, equal the model in "+
-			"which exactly the destination range was replaced by the source snapshot taken at issue; RspTo/Dst/ack order; no request taken and no memory access sent between an "+
+			"granularity are the listed finding and are rounded up (counted as excluded). Oracle at every acknowledgement (Top send hook): the storages of all modules of both sides, read in full (including the addresses a module does not own), equal the model in "+
+			"which exactly the destination range, in the owning modules, was replaced by the flat source snapshot taken at issue; RspTo/Dst/ack order; no request taken and no memory access sent between an "+
 			"acknowledgement and the next take; everything acknowledged and idle when Run returns. Non-trivial: some move has different source/destination granularities and is larger than BufferSize")
 	defer s.End()
-	s.Assume("ideal memory controllers and mem.Storage (inside capacity) are trusted; acknowledgement time = Send on the mover's Top port")
+	s.Assume("ideal memory controllers and mem.Storage (inside capacity) are trusted; acknowledgement time = Send on the mover's Top port; interleaved sides are wired as in mem/acceptancetests/pagemigration and the datamover's own tests: every module stores at the flat address (no address converter), the interleaving size is a multiple of the side's granularity")
 	s.Assume("BufferSize below minBuffer(srcGran,dstGran) and sizes that are not multiples of the destination granularity are outside the main generator (dedicated TestC23Known_* reproductions)")
 
 	run := func(f kit.Failer, c c23Case) {
@@ -712,7 +832,16 @@ func TestC23(t *testing.T) {
 		add(st.zeroSize, "zero-size")
 		add(st.atEnd, "range-ends-at-capacity")
 		add(st.oddGran, "non-power-of-two-granularity")
-		add(st.interleaved, "interleaved-controllers")
+		add(st.interleaved, "interleaved-modules")
+		add(st.dstInterleaved, "dst-interleaved")
+		add(st.srcInterleaved, "src-interleaved")
+		for b, name := range crossBucketName {
+			add(st.dstCross[b], "move-crosses-"+name+"-dst-boundaries")
+			add(st.srcCross[b], "move-crosses-"+name+"-src-boundaries")
+		}
+		add(st.dstWrap, "dst-range-reaches-every-module")
+		add(st.srcWrap, "src-range-reaches-every-module")
+		add(st.bothCross, "move-crosses-boundaries-on-both-sides")
 		add(len(c.Moves) >= 3, "moves>=3")
 		add(c.BufSize < c.InGran || c.BufSize < c.OutGran, "buffer<granularity")
 		s.Note(c, st.multiWindow, cls...)
